@@ -249,6 +249,7 @@ func walkCalls(e Expr, f func(string)) {
 func (fx *FnCtx) runAll() {
 	p := fx.entryPath()
 	if p != nil {
+		p.blockingInventory()
 		p.cover("pre", "")
 		p.runBlock(fx.fn.Blocks[0], nil)
 	}
@@ -893,4 +894,66 @@ func sortedKeys[V any](m map[string]V) []string {
 	}
 	sort.Strings(out)
 	return out
+}
+
+// blockingInventory (progress obligation, DESIGN 2.9): the only operations of this function that can block are the
+// ones its contract lists under `attr blocking-ops` (sites: select#k, send#k, recv#k, call(F)#k).
+func (p *Path) blockingInventory() {
+	fx := p.fx
+	if fx.spec == nil {
+		return
+	}
+	decl, ok := fx.spec.Attrs["blocking-ops"]
+	if !ok {
+		return
+	}
+	allowed := map[string]bool{}
+	for _, s := range strings.Split(decl, ",") {
+		allowed[strings.TrimSpace(s)] = true
+	}
+	var extra []string
+	seen := map[string]bool{}
+	for _, b := range fx.fn.Blocks {
+		for _, in := range b.Instrs {
+			site := ""
+			switch i := in.(type) {
+			case *ssa.Select:
+				if i.Blocking {
+					site = fx.siteName[in]
+				}
+			case *ssa.Send:
+				site = fx.siteName[in]
+			case *ssa.UnOp:
+				if i.Op == token.ARROW {
+					site = fx.siteName[in]
+				}
+			case ssa.CallInstruction:
+				if _, isGo := in.(*ssa.Go); isGo {
+					continue
+				}
+				cc := i.Common()
+				if _, isB := cc.Value.(*ssa.Builtin); isB {
+					continue
+				}
+				spec, _, _, _ := p.lookupSpec(cc)
+				// dynamic calls and calls without a contract may block; contracts say so with `attr blocking`
+				if spec == nil || spec.Attrs["blocking"] != "" || spec.ModAll || cc.IsInvoke() {
+					site = fx.siteName[in]
+				}
+			}
+			if site != "" {
+				seen[site] = true
+				if !allowed[site] {
+					extra = append(extra, site)
+				}
+			}
+		}
+	}
+	f := "true"
+	if len(extra) > 0 {
+		f = "false"
+	}
+	ob := &Oblig{Name: fx.short + ".blocking.inventory", Fn: fx.short, Kind: "blocking.inventory",
+		Clause: fmt.Sprintf("blocking operations %v are all listed in blocking-ops {%s}; unlisted: %v", sortedKeys(seen), decl, extra), Formula: f, Progress: true}
+	p.items = append(p.items, Item{Ob: ob})
 }
